@@ -35,6 +35,10 @@ CHECKS = {
             "Every list of length 0..6 (thorough 8) over 3 key values plus PRNG lists up to 200 through all comparator-based sorts (both families) with five comparators, checked on all pairs for order and stability, as permutations, and for input preservation; all 492 descriptor stacks (1..3 keys x directions x transformer/field-name x three Comparable key types) over all short record lists plus PRNG lists through the four descriptor-sort entry points against a reference lexicographic comparison.",
             "Trusted: the all-pairs order/stability predicates and the reference comparison; only strict comparators are generated.",
             "DESIGN.md section 5, C19"),
+    "C20": ("exploration", "trace-as-output oracle for combinators, independent acceptance model for patterns, chain oracle + Go race detector for concurrent CurryDef",
+            "All 5460 function lists (length 1..6 over 4 non-commuting functions) through Compose/Pipe with folds, reversal and every regrouping; adapters with recording functions; Trampoline scripts; CurryDef sequentially and with 2..8 concurrent callers (chain-of-chunks oracle; repeated under -race); all 326 pattern lists x 3 parameterisations x ~40 probe values through MatchFor/Either against the harness' own acceptance model; NewCompData against the declared type.",
+            "Trusted: the acceptance model with the pins listed in DESIGN.md C20; the race detector sees only executed access pairs.",
+            "DESIGN.md section 5, C20"),
 }
 
 NOT_YET = "check not built yet in this session (runtime monitoring applies; see DESIGN.md section 5)"
